@@ -8,13 +8,23 @@ from mvf import core, gen, harness
 from mvf.core import Failure
 
 
+def raised_in_delay_comparison(tb_text):
+    """the innermost frames of the traceback are a comparison method of mosaik/tiered_time.py"""
+    lines = [l for l in tb_text.splitlines() if l.strip().startswith("File ")]
+    if not lines:
+        return False
+    last = lines[-1]
+    return "tiered_time.py" in last and any(f"in __{op}__" in last for op in ("lt", "le", "gt", "ge"))
+
+
 def exc_class(res):
     """normalised class of an exception that came out of run()"""
     m = (res.exc_msg or "")
     t = res.exc_type or ""
     if "cannot progress backwards" in m:
         return "AssertionError:progress_backwards"
-    if "incomparable" in m:
+    if "incomparable" in m or raised_in_delay_comparison(getattr(res, "exc_tb", "") or ""):
+        # the comparison of two delays failed (whatever the wording or the exception class)
         return "AssertionError:incomparable"
     if "already progressed" in m:
         return "SimulationError:already_progressed"
